@@ -626,8 +626,8 @@ def aer2enu(az: float, elev: float, slant_range: float, deg: bool = True) -> np.
         ENU cartesian coordinates [east, north, up].
     """
     if deg:
-        az *= DEG2RAD
-        elev *= DEG2RAD
+        az = az*DEG2RAD         # Not in place: az and elev may be the caller's arrays
+        elev = elev*DEG2RAD
     r = slant_range*np.cos(elev)
     return np.array([r*np.sin(az), r*np.cos(az), slant_range*np.sin(elev)])
 
